@@ -61,13 +61,15 @@ def gen_scenario(rng, small=False):
     spawn_policy = {}
     for i in range(rng.choice([0, 0, 1, 2])):
         idx = rng.randint(0, 8)
-        kind = rng.choice(["die_now", "die_soon", "ignore_term", "boot_fail"])
+        kind = rng.choice(["die_now", "die_soon", "ignore_term", "boot_fail", "slow_boot", "slow_boot"])
         if kind == "die_now":
             spawn_policy[str(idx)] = {"die_after": 0.0, "die_status": rng.choice([0, 1, 255])}
         elif kind == "die_soon":
             spawn_policy[str(idx)] = {"die_after": rng.choice([0.05, 0.5, 1.2]), "die_signal": rng.choice([9, 11])}
         elif kind == "ignore_term":
             spawn_policy[str(idx)] = {"ignore_term": True}
+        elif kind == "slow_boot":
+            spawn_policy[str(idx)] = {"boot_time": rng.choice([0.5, 1.5, 2.5])}
         elif rng.random() < 0.3:
             spawn_policy[str(idx)] = {"die_after": rng.choice([0.0, 0.2]), "die_status": rng.choice([3, 4])}
             boot_fail = True
@@ -80,6 +82,7 @@ def gen_scenario(rng, small=False):
         events.append({"type": "end", "at": round(t + W, 2)})
     return {"workers": workers, "timeout": timeout, "graceful_timeout": graceful, "events": events,
             "default_policy": default_policy, "spawn_policy": spawn_policy, "final": final, "flood": flood,
+            "reuse_port": rng.random() < 0.12,
             "max_ticks": 300 + int(40 * t)}
 
 
@@ -179,8 +182,10 @@ class Monitor:
                 target = self.target_handled
             effective = [p for p in run if not any(s in (TERM, int(signal.SIGKILL), int(signal.SIGQUIT), int(signal.SIGABRT))
                                                     for _, s in p.sent)]
-            # a worker that was asked to stop but lingers (ignores TERM) may or may not be counted: both readings pass
-            if not (len(effective) <= target <= len(run)):
+            # a worker that ignores TERM by policy and was asked to stop may or may not be counted: both readings pass;
+            # every other running worker counts (a TERM that got lost while the worker was booting has to be repeated)
+            lingering = [p for p in run if p.policy.get("ignore_term") and any(s == TERM for _, s in p.sent)]
+            if not (len(run) - len(lingering) <= target <= len(run)):
                 tracked = set(k.tracked)
                 live = set(p.pid for p in run)
                 phantom = sorted(tracked - live - set(p.pid for p in zomb))
@@ -289,6 +294,10 @@ def run_one(run, e3, sc, schedule, sched_desc):
         run.count("reload_histories")
     if sc.get("flood"):
         run.count("signal_flood_histories")
+    if sc.get("reuse_port") and k.boot_failure_reaped_at is not None:
+        run.count("boot_failure_under_reuse_port")
+    if any(e[1] == "term_lost_during_boot" for e in k.log):
+        run.count("term_lost_during_boot_histories")
     return v, k
 
 
@@ -343,7 +352,8 @@ def main(tier, seed):
     run = Run(PROP, tier, seed, "exploration", RULE)
     run.require("histories", "quiescence_checks", "sigchld_handler_calls", "death_at_fork_return", "death_at_kill_return",
                 "death_between_source_lines", "death_while_master_sleeps", "term_kills_judged", "boot_failures_reaped",
-                "stop_signal_histories", "reload_histories", "enumerated_first_delivery_points", "signal_flood_histories")
+                "stop_signal_histories", "reload_histories", "enumerated_first_delivery_points", "signal_flood_histories", "boot_failure_under_reuse_port",
+                "term_lost_during_boot_histories")
     q = tier == "quick"
     shards = [{"kind": "sample", "n": 60 if q else 1500, "schedules": 20, "sub": i, "seed": seed, "tier": tier}
               for i in range(16 if q else 32)]
